@@ -633,6 +633,8 @@ func notXMLClass(ct HV) string {
 		return "content-type:missing"
 	case ct.Cls == "unparsable":
 		return "content-type:unparsable"
+	case ct.Cls == "badparams":
+		return "content-type:invalid-parameters"
 	case ct.Cls == "other" || ct.Cls == "ical" || ct.Cls == "vcard":
 		return "content-type:other"
 	}
@@ -747,6 +749,8 @@ func reasons(cs *Case) []reason {
 			add("ct", "content-type:missing")
 		case cs.CT.Cls == "unparsable":
 			add("ct", "content-type:unparsable")
+		case cs.CT.Cls == "badparams":
+			add("ct", "content-type:invalid-parameters")
 		case cs.CT.Cls == "boundary" || cs.CT.Cls == want:
 		default:
 			add("ct", "content-type:other")
